@@ -318,6 +318,12 @@ func (cur *crsr) ApplyState(state State) error {
 			cur.state.Pos = oldPos
 			return errors.Wrapf(err, "Could not apply position %s to the cursor state %s ", state.Pos, cur.state)
 		}
+
+		// the journal iterators stand somewhere else now: what the wrapping iterators keep from the old
+		// position (the filter's cached event, the mixers' selected heads) must not be served from there.
+		// A direction switch there and back makes them forget it and select again, as Offset relies on.
+		cur.it.SetBackward(true)
+		cur.it.SetBackward(false)
 	}
 	return nil
 }
